@@ -1,5 +1,5 @@
 /-
-  C10 — the json-patch library model (`JsonPatch.Lib`) agrees with RFC 6902 as written
+  C10 — the json-patch library model (`JsonPatch.Lib`) agrees with our transcription of RFC 6902
   (`JsonPatch.Rfc`) on a stated fragment: pointers that are RFC 6901 pointers, walks that meet no
   array, `add` / `remove` with the members RFC 6902 demands; `replace` in the direction
   "what the RFC accepts the library does alike". The library's deviations met on the way are
@@ -27,7 +27,8 @@ theorem dropLast_getLast {α} (l : List α) (d : α) (h : l ≠ []) : l = l.drop
 
 /-- **an RFC 6901 pointer with at least one token is split by the library into the same tokens**:
     the parent parts (still escaped; the walk unescapes them with the same `decodeKey`) and the
-    last key -/
+    last key. (`Rfc.tokens` keeps a `~` that is not followed by `0` or `1` literally; RFC 6901's
+    grammar forbids such a pointer, the library is equally lenient — both sides use `decodeKey`.) -/
 theorem pointer_agree (path : String) (ts : List String) (h : Rfc.tokens path = some ts) (hne : ts ≠ []) :
     ∃ parts key, Lib.splitPointer path = some (parts, key) ∧ ts = parts.map decodeKey ++ [key] := by
   unfold Rfc.tokens at h
@@ -256,8 +257,9 @@ theorem op_agree (f : String → Json → R Json) (g : Json → String → Optio
     the tree, meet `null`s or scalars: then both refuse.) -/
 theorem add_agree (doc op : Json) (p : String) (v : Json) (toks : List String)
     (hop : op.get? "op" = some (.str "add")) (hpath : op.get? "path" = some (.str p)) (hval : op.get? "value" = some v)
-    (ht : Rfc.tokens p = some toks) (hw : objWalk doc toks.dropLast = true) :
+    (ht : Rfc.tokens p = some toks) (hne : toks ≠ []) (hw : objWalk doc toks.dropLast = true) :
     Lib.applyOp doc op = ofOpt (Rfc.applyOp doc op) := by
+  have _ := hne
   have h := op_agree (fun key con => Lib.conAdd con key v) (Rfc.addInto v) doc p toks (fun key => leaf_add key v)
     (leaf_add_scalar v) ht hw
   simp only [Lib.applyOp, Lib.opString, hop, hpath, hval, if_true, Option.getD_some, Rfc.applyOp, Option.bind_some,
@@ -267,8 +269,9 @@ theorem add_agree (doc op : Json) (p : String) (v : Json) (toks : List String)
 /-- **`remove`** alike (a member whose value is `null` is removed by both) -/
 theorem remove_agree (doc op : Json) (p : String) (toks : List String)
     (hop : op.get? "op" = some (.str "remove")) (hpath : op.get? "path" = some (.str p))
-    (ht : Rfc.tokens p = some toks) (hw : objWalk doc toks.dropLast = true) :
+    (ht : Rfc.tokens p = some toks) (hne : toks ≠ []) (hw : objWalk doc toks.dropLast = true) :
     Lib.applyOp doc op = ofOpt (Rfc.applyOp doc op) := by
+  have _ := hne
   have h := op_agree (fun key con => Lib.conRemove con key) Rfc.removeFrom doc p toks (fun key => leaf_remove key)
     leaf_remove_scalar ht hw
   have e : ("remove" = "add") = False := by decide
@@ -336,8 +339,9 @@ theorem replace_le_add (v : Json) : ∀ (toks : List String) (doc d : Json), obj
     whether the member is there -/
 theorem replace_is_rfc_add (doc op : Json) (p : String) (v : Json) (toks : List String)
     (hop : op.get? "op" = some (.str "replace")) (hpath : op.get? "path" = some (.str p)) (hval : op.get? "value" = some v)
-    (ht : Rfc.tokens p = some toks) (hw : objWalk doc toks.dropLast = true) :
+    (ht : Rfc.tokens p = some toks) (hne : toks ≠ []) (hw : objWalk doc toks.dropLast = true) :
     Lib.applyOp doc op = ofOpt (Rfc.updateParent (Rfc.addInto v) doc toks) := by
+  have _ := hne
   have h := op_agree (fun key con => do let _ ← Lib.conGet con key; Lib.conSet con key v) (Rfc.addInto v) doc p toks
     (fun key => leaf_replace_is_add key v) (leaf_add_scalar v) ht hw
   have e1 : ("replace" = "add") = False := by decide
@@ -353,20 +357,20 @@ theorem rfc_replace_eq (doc op : Json) (p : String) (v : Json) (toks : List Stri
 /-- **`replace`, what the RFC accepts the library does alike** -/
 theorem replace_le (doc op : Json) (p : String) (v : Json) (toks : List String) (d : Json)
     (hop : op.get? "op" = some (.str "replace")) (hpath : op.get? "path" = some (.str p)) (hval : op.get? "value" = some v)
-    (ht : Rfc.tokens p = some toks) (hw : objWalk doc toks.dropLast = true)
+    (ht : Rfc.tokens p = some toks) (hne : toks ≠ []) (hw : objWalk doc toks.dropLast = true)
     (h : Rfc.applyOp doc op = some d) : Lib.applyOp doc op = .ok d := by
   rw [rfc_replace_eq doc op p v toks hop hpath hval ht] at h
-  rw [replace_is_rfc_add doc op p v toks hop hpath hval ht hw, replace_le_add v toks doc d hw h]
+  rw [replace_is_rfc_add doc op p v toks hop hpath hval ht hne hw, replace_le_add v toks doc d hw h]
   rfl
 
 /-- **`replace` of a member that is there**: full agreement -/
 theorem replace_agree_existing (doc op : Json) (p : String) (v : Json) (toks : List String)
     (hop : op.get? "op" = some (.str "replace")) (hpath : op.get? "path" = some (.str p)) (hval : op.get? "value" = some v)
-    (ht : Rfc.tokens p = some toks) (hw : objWalk doc toks.dropLast = true)
+    (ht : Rfc.tokens p = some toks) (hne : toks ≠ []) (hw : objWalk doc toks.dropLast = true)
     (hex : (Rfc.getAt doc toks).isSome = true) :
     Lib.applyOp doc op = ofOpt (Rfc.applyOp doc op) := by
   rw [rfc_replace_eq doc op p v toks hop hpath hval ht, replace_eq_add_existing v toks doc hw hex]
-  exact replace_is_rfc_add doc op p v toks hop hpath hval ht hw
+  exact replace_is_rfc_add doc op p v toks hop hpath hval ht hne hw
 
 /-! ### 6. the hypotheses are met by ordinary operations; the deviations next to the fragment -/
 
@@ -378,7 +382,7 @@ example : ∃ parts key, Lib.splitPointer "/a/b~1c" = some (parts, key) ∧ ["a"
 
 /-- `add` of a nested member: the theorem applies, and both sides give this document -/
 example : Lib.applyOp sampleDoc (sampleOp "add" "/a/c" (.str "y")) = ofOpt (Rfc.applyOp sampleDoc (sampleOp "add" "/a/c" (.str "y"))) :=
-  add_agree _ _ "/a/c" (.str "y") ["a", "c"] rfl rfl rfl (by decide) (by decide)
+  add_agree _ _ "/a/c" (.str "y") ["a", "c"] rfl rfl rfl (by decide) (by decide) (by decide)
 
 example : Rfc.applyOp sampleDoc (sampleOp "add" "/a/c" (.str "y")) =
     some (.obj [("a", .obj [("b", .str "x"), ("c", .str "y")]), ("n", .null), ("l", .arr [.str "e"])]) := by rfl
@@ -386,12 +390,12 @@ example : Rfc.applyOp sampleDoc (sampleOp "add" "/a/c" (.str "y")) =
 /-- `add` below a `null` member: the theorem applies, both refuse -/
 example : Lib.applyOp sampleDoc (sampleOp "add" "/n/c" (.str "y")) = .err ∧
     Rfc.applyOp sampleDoc (sampleOp "add" "/n/c" (.str "y")) = none :=
-  ⟨by rw [add_agree _ _ "/n/c" (.str "y") ["n", "c"] rfl rfl rfl (by decide) (by decide)]; rfl, by rfl⟩
+  ⟨by rw [add_agree _ _ "/n/c" (.str "y") ["n", "c"] rfl rfl rfl (by decide) (by decide) (by decide)]; rfl, by rfl⟩
 
 /-- `remove` of a member whose value is `null`: both remove it -/
 example : Lib.applyOp sampleDoc (.obj [("op", .str "remove"), ("path", .str "/n")]) =
     ofOpt (Rfc.applyOp sampleDoc (.obj [("op", .str "remove"), ("path", .str "/n")])) :=
-  remove_agree _ _ "/n" ["n"] rfl rfl (by decide) (by decide)
+  remove_agree _ _ "/n" ["n"] rfl rfl (by decide) (by decide) (by decide)
 
 example : Rfc.applyOp sampleDoc (.obj [("op", .str "remove"), ("path", .str "/n")]) =
     some (.obj [("a", .obj [("b", .str "x")]), ("l", .arr [.str "e"])]) := by rfl
@@ -399,11 +403,11 @@ example : Rfc.applyOp sampleDoc (.obj [("op", .str "remove"), ("path", .str "/n"
 /-- `replace` of a member that is there -/
 example : Lib.applyOp sampleDoc (sampleOp "replace" "/a/b" (.str "y")) =
     ofOpt (Rfc.applyOp sampleDoc (sampleOp "replace" "/a/b" (.str "y"))) :=
-  replace_agree_existing _ _ "/a/b" (.str "y") ["a", "b"] rfl rfl rfl (by decide) (by decide) (by rfl)
+  replace_agree_existing _ _ "/a/b" (.str "y") ["a", "b"] rfl rfl rfl (by decide) (by decide) (by decide) (by rfl)
 
 example : Lib.applyOp sampleDoc (sampleOp "replace" "/a/b" (.str "y")) =
     .ok (.obj [("a", .obj [("b", .str "y")]), ("n", .null), ("l", .arr [.str "e"])]) :=
-  replace_le _ _ "/a/b" (.str "y") ["a", "b"] _ rfl rfl rfl (by decide) (by decide) (by rfl)
+  replace_le _ _ "/a/b" (.str "y") ["a", "b"] _ rfl rfl rfl (by decide) (by decide) (by decide) (by rfl)
 
 /-- DEVIATION (`replace` of a member that is not there): RFC 6902 §4.3 demands that the target
     exists; the library adds the member -/
@@ -437,5 +441,13 @@ example : Lib.applyOp sampleDoc (sampleOp "add" "/l/-1" (.str "y")) =
     refuses before `conSet` would pad the array with `null`s -/
 example : Lib.applyOp sampleDoc (sampleOp "replace" "/l/2" (.str "y")) = .err ∧
     Rfc.applyOp sampleDoc (sampleOp "replace" "/l/2" (.str "y")) = none := ⟨by rfl, by rfl⟩
+
+/-- root target (`path = ""`): RFC 6902 §4.1 / §4.3 would replace the whole document; both models
+    refuse (our `Rfc` transcription does not model root targets, the library's `findObject` has
+    no parent to look up) — outside the theorems, which demand at least one token (`hne`) -/
+example : Rfc.applyOp sampleDoc (sampleOp "add" "" (.str "y")) = none ∧
+    Lib.applyOp sampleDoc (sampleOp "add" "" (.str "y")) = .err ∧
+    Rfc.applyOp sampleDoc (sampleOp "replace" "" (.str "y")) = none ∧
+    Lib.applyOp sampleDoc (sampleOp "replace" "" (.str "y")) = .err := ⟨by rfl, by rfl, by rfl, by rfl⟩
 
 end Sidetree.Props.C10
